@@ -1,33 +1,32 @@
 #!/bin/bash
-# usage: tools/confirm_mut.sh <mutant-dir>
-# Confirms a seeded change independently: applies in a scratch worktree, builds, runs the
-# repository's own suite, then the demonstration with and without the change.
+# usage: tools/confirm_mut.sh <mutant-dir> [--skip-suite]
+# Confirms a seeded change independently of its author's scripts: applies patch.diff in a scratch
+# worktree, builds, runs the repository's own suite, then runs the demonstration test(s)
+# (zz_demo*_test.go, package and -run pattern taken from run_demo.sh) with and without the change.
 set -u
 export GOFLAGS=-mod=mod GOPROXY=off
-mdir=$(cd "$1" && pwd); name=$(basename "$mdir")
+mdir=$(cd "$1" && pwd); name=$(basename "$mdir"); skip=${2:-}
 wt=/tmp/confirm-$name-$$
 git -C /repo worktree add --detach "$wt" >/dev/null 2>&1 || { echo "cannot create worktree"; exit 2; }
 trap 'git -C /repo worktree remove --force "$wt" >/dev/null 2>&1; rm -rf "$wt"' EXIT
 cd "$wt"
 git apply "$mdir/patch.diff" || { echo "$name: PATCH DOES NOT APPLY"; exit 2; }
 if go build ./... 2>&1 | tail -3 | grep -q .; then echo "$name: BUILD FAILS"; exit 2; fi
-suite=$(go test -vet=off -count=1 -timeout 25m ./... 2>&1)
-if echo "$suite" | grep -q "^FAIL\|^--- FAIL\|panic:"; then suite_ok=false; else suite_ok=true; fi
-cd "$mdir"
-if grep -q "worktree add" run_demo.sh; then
-  # self-contained demo script: creates its own worktree, argument with|without
-  with=$(sh ./run_demo.sh with 2>&1); with_code=$?
-  without=$(sh ./run_demo.sh without 2>&1); without_code=$?
-else
-  # demo script meant to be run inside a worktree that holds the demo test
-  pkg=$(grep -o '\./[a-zA-Z0-9_/]*/*' run_demo.sh | grep -v '^\./run_demo' | tail -1); pkg=${pkg#./}; pkg=${pkg%/}
-  [ -z "$pkg" ] && pkg=$(python3 -c "import json;print(json.load(open('meta.json')).get('demo_package','pwr'))")
-  cp "$mdir"/zz_demo*_test.go "$wt/$pkg/" 2>/dev/null
-  with=$(cd "$wt" && sh "$mdir/run_demo.sh" 2>&1); with_code=$?
-  (cd "$wt" && git apply -R "$mdir/patch.diff")
-  without=$(cd "$wt" && sh "$mdir/run_demo.sh" 2>&1); without_code=$?
+suite_ok=skipped; suite=""
+if [ "$skip" != "--skip-suite" ]; then
+  suite=$(go test -vet=off -count=1 -timeout 25m ./... 2>&1)
+  if echo "$suite" | grep -q "^FAIL\|^--- FAIL\|panic:"; then suite_ok=false; else suite_ok=true; fi
 fi
-wf=false; echo "$with" | grep -q "FAIL\|panic:\|DATA RACE\|exit status" && wf=true; [ $with_code -ne 0 ] && wf=true
-wo=true; echo "$without" | grep -q "FAIL\|panic:\|DATA RACE" && wo=false; [ $without_code -ne 0 ] && wo=false
-echo "$name: suite_passes_with_change=$suite_ok demo_fails_with_change=$wf demo_passes_without_change=$wo"
-{ echo "== suite (tail)"; echo "$suite" | tail -30; echo "== demo with change (exit $with_code)"; echo "$with" | tail -25; echo "== demo without change (exit $without_code)"; echo "$without" | tail -15; } > "$mdir/confirm.log"
+# where does the demo test go, and which tests does it run?
+pkg=$(grep -o '\(\$WT\|\$D\|\$WORKTREE\|<worktree>\|"\$WT"\|"\$D"\)/[a-z][a-zA-Z0-9_/]*/' "$mdir/run_demo.sh" | head -1 | sed 's/^[^/]*\///; s/\/$//')
+[ -z "$pkg" ] && pkg=$(grep -o ' \./[a-z][a-zA-Z0-9_/]*/\? *' "$mdir/run_demo.sh" | grep -v run_demo | tail -1 | tr -d ' ' | sed 's/^\.\///; s/\/$//')
+pat=$(grep -o "\-run[ =]*['\"]\?[A-Za-z_|^$.*]*" "$mdir/run_demo.sh" | head -1 | sed "s/-run[ =]*//; s/['\"]//g")
+[ -z "$pat" ] && pat="Demo"
+cp "$mdir"/zz_demo*_test.go "$wt/$pkg/" 2>/dev/null || { echo "$name: cannot place demo test into '$pkg'"; exit 2; }
+with=$(go test -vet=off -count=1 -run "$pat" "./$pkg/" 2>&1); with_code=$?
+git apply -R "$mdir/patch.diff"
+without=$(go test -vet=off -count=1 -run "$pat" "./$pkg/" 2>&1); without_code=$?
+wf=false; [ $with_code -ne 0 ] && wf=true
+wo=false; [ $without_code -eq 0 ] && echo "$without" | grep -q "^ok" && wo=true
+echo "$name: suite_passes_with_change=$suite_ok demo_fails_with_change=$wf demo_passes_without_change=$wo (pkg=$pkg run=$pat)"
+{ echo "== suite with the change (tail)"; echo "$suite" | tail -30; echo "== demo with the change: go test -run $pat ./$pkg/ (exit $with_code)"; echo "$with" | tail -25; echo "== demo without the change (exit $without_code)"; echo "$without" | tail -10; } > "$mdir/confirm.log"
